@@ -1,2 +1,4 @@
 import FggsModel.Basic
 import FggsModel.Semiring
+import FggsModel.Scc
+import FggsModel.Interp
